@@ -47,6 +47,12 @@ class VerifyMixin(object):
         if actual != declared:
             raise OutsideSubset("parameters of %s are %s, sidecar declares %s" % (c.qualname, actual, declared))
         st = self.initial_state(c)
+        if "<locals>" in c.qualname:
+            st.env[fn.name] = V(CLOSURE, None, (fn, None, fn.name))     # a nested function can call itself
+            parent, _ = mod.find(c.qualname.rsplit(".<locals>.", 1)[0])
+            for n in parent.body:                                         # ... and its siblings
+                if isinstance(n, ast.FunctionDef) and n.name not in st.env:
+                    st.env[n.name] = V(CLOSURE, None, (n, None, n.name))
         for x in (fn.args.vararg, fn.args.kwarg):
             if x is not None:
                 st.alias.pop(x.arg, None)      # *args / **kwargs are fresh objects of the callee: never caller-visible
@@ -59,7 +65,7 @@ class VerifyMixin(object):
             st.assume(self.spec_bool(text, st))
         for name, (ty, init) in c.ghosts.items():
             gv = self.spec(init, st)
-            st.env[name] = self.adapt(gv, ty)
+            st.env[name] = self.store_form(st, self.adapt(gv, ty), ty)
         if c.yields is not None:
             st.env["yields_"] = core.lempty(c.yields)
         old = st.copy()
